@@ -419,7 +419,7 @@ def run_real(cfg, env, stream, ops, nocache=False):
         for op in ops:
             if nocache and op[0] == 'r' and op[1] < len(reqs) and reqs[op[1]] is not None:
                 wipe_caches(reqs[op[1]])
-            r = core.with_timeout(lambda: apply_op(reqs, op), 10)
+            r = core.with_timeout(lambda: apply_op(reqs, op), 3)
             if r is not None:
                 outs.append(r)
             after_op(rec, reqs, cfg)
@@ -649,7 +649,7 @@ def gen_ops(rng, check, cfg, env, stream, n_ops, safe_bias):
                 op = ('c', i)
         ops.append(op)
         try:
-            core.with_timeout(lambda: apply_op(reqs, op), 10)
+            core.with_timeout(lambda: apply_op(reqs, op), 3)
         except core.Hang:
             raise
         except Exception:
@@ -687,13 +687,30 @@ def bump(stats, key, n=1):
 def corr_stream(rng, n, check, stats):
     """[(line, impl answer, sample)]"""
     out = []
+    hangs = 0
     for _ in range(n):
-        cfg, env, stream, ops = gen_case(rng, check)
-        outs, tabs = run_real(cfg, env, stream, ops)
+        # a faulty tree may spin: such a case is dropped here (the property's own streams and the search oracle
+        # report the hang with an input); after three of them the stream stops instead of crashing the check
+        try:
+            cfg, env, stream, ops = gen_case(rng, check)
+            outs, tabs = run_real(cfg, env, stream, ops)
+        except core.Hang:
+            hangs += 1
+            bump(stats, 'envcache:hangs')
+            if hangs >= 3:
+                break
+            continue
         out.append((line_of(cfg, tabs, env, stream, ops), answer_of(outs),
                     dict(kind='envcache', **pack(cfg, env, stream, ops))))
         if rng.random() < .35:      # the same sequence on the reference machine: real code with its caches wiped
-            outs2, tabs2 = run_real(cfg, env, stream, ops, nocache=True)
+            try:
+                outs2, tabs2 = run_real(cfg, env, stream, ops, nocache=True)
+            except core.Hang:
+                hangs += 1
+                bump(stats, 'envcache:hangs')
+                if hangs >= 3:
+                    break
+                continue
             out.append((line_of(cfg, tabs2, env, stream, ops, 'spec'), answer_of(outs2),
                         dict(kind='envcache', spec=True, **pack(cfg, env, stream, ops))))
             bump(stats, 'envcache:spec-cases')
@@ -764,7 +781,7 @@ def oracle_case(cfg, env, stream, ops, domain, pid, stats=None):
             k, i = op[0], op[1]
             rq = reqs[i] if i < len(reqs) else None
             if rq is None:
-                core.with_timeout(lambda: apply_op(reqs, op), 10)
+                core.with_timeout(lambda: apply_op(reqs, op), 3)
                 continue
             if k == 'r':
                 attr = op[2]
@@ -806,7 +823,7 @@ def oracle_case(cfg, env, stream, ops, domain, pid, stats=None):
                     j = len(reqs)
                     cause[j] = 'copy'
                     tr.copied(i, j)
-                x = core.with_timeout(lambda: apply_op(reqs, op), 10)
+                x = core.with_timeout(lambda: apply_op(reqs, op), 3)
                 if x is not None:
                     return (f'{pid}:{ {"s": "setitem", "i": "setitem", "d": "delitem", "c": "copy"}[k] }:raises',
                             f'op {n} of {",".join(op_token(o) for o in ops)} raised {x[2:]}')
@@ -983,7 +1000,11 @@ def install(cls, quick=(500, 350), thorough=(12000, 5000)):
         evals, findings = o_search(self, rng, n, [s for s in seeds if not (isinstance(s, dict) and s.get('kind') == 'envcache')])
         if not hasattr(self, 'stats') or self.stats is None:
             self.stats = {}
-        ev, fs = search_stream(rng, sizes(self)[1], pid, pid, self.stats, seeds)
+        try:
+            ev, fs = core.with_timeout(lambda: search_stream(rng, sizes(self)[1], pid, pid, self.stats, seeds), 300)
+        except core.Hang:
+            ev, fs = 1, [Finding(f'{pid}:envcache:hang', 'a cached-property read did not terminate (300 s of CPU time in the '
+                                 'cache-layer oracle stream)', dict(probe='envcache', sub='hang'))]
         return evals + ev, list(findings) + fs
 
     def replay(self, data):
